@@ -193,7 +193,9 @@ def check(s):
                 want_src = ("call", ("attr", ("param", src), "canonical"), (), ()) if src else ("param", "state")
                 ok = v[2][1] == want_src
                 leaf = bi.apply(v[2][0], (("param", "$e"),), ())
-                ok = ok and nzi.canon(leaf) == nzi.canon(s.ref(bi, "jnp.broadcast_to(jnp.asarray(e), (size,) + jnp.asarray(e).shape)", {"e": ("param", "$e"), "size": ("attr", ("param", "self"), "size")}))
+                # `self.size` inside the leaf function is the constructor's `size` argument (assigned just before): either reading is the same value
+                ok = ok and nzi.canon(leaf) in [nzi.canon(s.ref(bi, "jnp.broadcast_to(jnp.asarray(e), (size,) + jnp.asarray(e).shape)", {"e": ("param", "$e"), "size": sz}))
+                                                for sz in (("attr", ("param", "self"), "size"), ("param", "size"))]
             s.ob("C06.2", f"ReplayBuffer.__init__.{F}", ok, f"{F} is allocated as `size` copies of a leaf-shaped example from " + (f"{src}.canonical()" if src else "the policy state"), loci,
                  key=f"alloc-{F}", detail=show(v or NONE, maxlen=160))
     cases = check_sample(s)
@@ -275,7 +277,7 @@ def check_flatten(s, rule):
         lps = b.apply_paths(r[2][0], (("param", "$x"),))
         moved = [lp for lp in lps if lp.ret != ("param", "$x")]
         keep = [lp for lp in lps if lp.ret == ("param", "$x")]
-        s.ob(rule, con, len(moved) == 1 and len(keep) == 2, "non-array leaves and leaves of too low rank are returned unchanged; others are reshaped",
+        s.ob(rule, con, len(moved) == 1 and len(keep) >= 1, "non-array leaves and leaves of too low rank are returned unchanged; others are reshaped",
              loc, key="flatten-leaf-cases", detail=f"{len(moved)} reshaped / {len(keep)} unchanged")
         if len(moved) != 1:
             continue
